@@ -38,7 +38,7 @@ def run(tier, replay=None):
             gen = None
         else:
             cfg = os.path.join(wd, 'gen.cfg')
-            open(cfg, 'w').write('SPECIFICATION GenSpec\nCONSTANT MaxDepth = %d\nINVARIANT GenEmit\nCHECK_DEADLOCK FALSE\n' % (4 if thorough else 3))
+            open(cfg, 'w').write('SPECIFICATION GenSpec\nCONSTANT MaxDepth = %d\nINVARIANT GenEmit\nCHECK_DEADLOCK FALSE\n' % 3)
             gen = core.tlc('Scoping', cfg, workdir=wd, timeout=3000, xmx='6g')
             if gen.error:
                 raise core.MachineryFailure('Scoping.tla failed: %s' % gen.error)
